@@ -1010,6 +1010,115 @@ def color_intern(prog: Program) -> RuleResult:
     return res
 
 
+
+# ---------------------------------------------------------------------------
+# colour of the loss nodes comes from a real object node
+
+
+def _may_kinds(fn: ast.AST, name: str, at: ast.AST, virtual: Set[str], depth: int = 0) -> Set[str]:
+    """Kinds of object a local may denote at `at`: 'virtual' (an instance of a virtual-node class),
+    'param' (a parameter / free name), 'other'."""
+    if depth > 6:
+        return {"other"}
+    val = reaching(fn, name, at)
+    if val is None:
+        return {"param"}
+    if isinstance(val, Opaque):
+        # loop-carried or loop variable: every assignment inside the enclosing loops may reach, plus the
+        # definition before the outermost such loop
+        kinds: Set[str] = set()
+        loops = loops_around(fn, at)
+        carrying = [l for l in loops if any(_assigns(st, name) for st in l.body)]
+        if not carrying:
+            return {"other"}
+        outer = carrying[0]
+        before = reaching(fn, name, outer)
+        if before is None:
+            kinds.add("param")
+        elif isinstance(before, Opaque):
+            kinds.add("other")
+        else:
+            kinds |= _expr_kinds(fn, before, before if hasattr(before, "lineno") else outer, virtual, depth + 1)
+        for st in ast.walk(outer):
+            if isinstance(st, ast.Assign) and any(isinstance(t, ast.Name) and t.id == name for t in st.targets):
+                kinds |= _expr_kinds(fn, st.value, st, virtual, depth + 1)
+        return kinds
+    return _expr_kinds(fn, val, val if hasattr(val, "lineno") else at, virtual, depth + 1)
+
+
+def _assigns(stmt: ast.AST, name: str) -> bool:
+    return any(
+        isinstance(n, ast.Name) and n.id == name and isinstance(n.ctx, ast.Store) for n in ast.walk(stmt)
+    )
+
+
+def _expr_kinds(fn: ast.AST, expr: ast.AST, at: ast.AST, virtual: Set[str], depth: int) -> Set[str]:
+    if isinstance(expr, ast.Call) and dotted(expr.func) in virtual:
+        return {"virtual"}
+    if isinstance(expr, ast.Name):
+        return _may_kinds(fn, expr.id, at, virtual, depth)
+    if isinstance(expr, ast.IfExp):
+        return _expr_kinds(fn, expr.body, at, virtual, depth) | _expr_kinds(fn, expr.orelse, at, virtual, depth)
+    return {"other"}
+
+
+def color_source(prog: Program) -> RuleResult:
+    res = RuleResult(
+        "COLOR-SOURCE",
+        "in render/layout.py a colour is only ever read from a real object-tree node: the expression whose "
+        "`color` feature is read (getattr / hasattr / attribute) can never denote a virtual loss node "
+        "(PseudoGene has no colour, so the read silently yields the default and the colour stops propagating "
+        "after the first loss of an edge)",
+    )
+    mod = prog.module(LAYOUT)
+    model = prog.module("render.model")
+    virtual = {
+        name for name, node in prog.defs("render.model").items()
+        if isinstance(node, ast.ClassDef) and not any(isinstance(st, ast.AnnAssign) for st in node.body) and name.startswith("Pseudo")
+    }
+    if not virtual:
+        raise AnalysisError("render.model: virtual node class (PseudoGene) not found")
+    del model
+    n = 0
+    for qual, fn in prog.defs(LAYOUT).items():
+        if not isinstance(fn, FuncNode) or "." in qual:
+            continue
+        for node in walk_no_nested(fn):
+            base = None
+            if isinstance(node, ast.Call) and dotted(node.func) in ("getattr", "hasattr") and len(node.args) >= 2:
+                if isinstance(node.args[1], ast.Constant) and node.args[1].value == "color":
+                    base = node.args[0]
+            elif isinstance(node, ast.Attribute) and node.attr == "color" and isinstance(node.ctx, ast.Load):
+                base = node.value
+            if base is None:
+                continue
+            n += 1
+            construct = f"{LAYOUT}:{qual}/color-read[{short(base, 30)}]"
+            root = base
+            while isinstance(root, ast.Attribute):
+                root = root.value
+            if not isinstance(root, ast.Name):
+                res.ok(construct, "not a local", nontrivial=False)
+                continue
+            if root is not base:
+                # x.up.color etc.: attribute of a node reached from x; virtual nodes have no such attributes
+                kinds = _may_kinds(fn, root.id, node, virtual)
+            else:
+                kinds = _may_kinds(fn, root.id, node, virtual)
+            if "virtual" in kinds:
+                res.fail(
+                    construct,
+                    f"`{short(node, 60)}` reads the colour of `{root.id}`, which may be a virtual loss node "
+                    f"({sorted(virtual)[0]}() reaches it through the loop): the colour is lost after the first loss",
+                    mod,
+                    node,
+                )
+            else:
+                res.ok(construct, f"`{root.id}` denotes {sorted(kinds)}")
+    if n < 3:
+        raise AnalysisError(f"COLOR-SOURCE: only {n} colour reads found in layout.py")
+    return res
+
 # ---------------------------------------------------------------------------
 # escaping
 
@@ -1286,6 +1395,7 @@ def _dominated_by_assignment(loop: ast.For, use: ast.AST, name: str) -> bool:
 
 
 RULES = {
+    "COLOR-SOURCE": color_source,
     "KIND-EXHAUSTIVE": kind_exhaustive,
     "KIND-AGREE": kind_agree,
     "ONE-EVENT-NODE": one_event_node,
